@@ -1,6 +1,7 @@
-"""Constants translator: reads the literal constants the theorems depend on out of the
-current /repo sources with Python's ast and writes coq/Gen/SourceConsts.v.
-Fail-closed: any source shape it does not recognise raises."""
+"""Constants translator: reads the literal constants, start-up orders and the master's waiting-loop skeleton
+the theorems depend on out of the current /repo sources with Python's ast and writes coq/Gen/SourceConsts.v.
+Fail-closed per section: a source shape it does not recognise leaves that section's definitions out, so the
+theorems resting on them no longer compile (and only those).""" 
 from __future__ import annotations
 
 import ast
@@ -159,39 +160,107 @@ def coq_string(s: str) -> str:
     return '"' + s.replace('"', '""') + '"'
 
 
+# ---- the master's waiting loop (C07/C08): MasterScheduler._do_tick must keep the statement skeleton that
+# Model/WakeFlag.v models; the one degree of freedom extracted is whether the idle branch clears the flag
+_DO_TICK = [
+    "(components, when) = self.get_first_wakeups()",
+    "assert when is not None",
+    "self.new_wakeup.clear()",
+    "new = asyncio.create_task(self.new_wakeup.wait())",
+    "current = asyncio.create_task(asyncio.sleep(self.sleep_time(when)))",
+    "(which, _) = await asyncio.wait([current, new], return_when=asyncio.tasks.FIRST_COMPLETED)",
+    "if new in which:\n    current.cancel()\n    return",
+    "new.cancel()",
+    "for component in components:\n    del self.wakeups[component]",
+    "await self.ticker(when, {component for component in components})",
+    "self._mark_time(self.ticker.time)",
+]
+
+
+def _master_loop(src: Path) -> bool:
+    master = ast.parse((src / "core/management/schedulers/master.py").read_text())
+    fn = _func(master, "_do_tick", "MasterScheduler")
+    stmts = [st for st in fn.body if not (isinstance(st, ast.Expr) and isinstance(st.value, ast.Constant))]
+    if not stmts or not isinstance(stmts[0], ast.If) or ast.unparse(stmts[0].test) != "not self.wakeups" or stmts[0].orelse:
+        raise Unrecognised("_do_tick: does not start with `if not self.wakeups:`")
+    body = [ast.unparse(st) for st in stmts[0].body]
+    if body == ["self.new_wakeup.clear()", "await self.new_wakeup.wait()"]:
+        clears = True
+    elif body == ["await self.new_wakeup.wait()"]:
+        clears = False
+    else:
+        raise Unrecognised(f"_do_tick: unexpected idle branch {body}")
+    def norm(code):       # independent of how this Python version prints tuples etc.
+        return ast.unparse(ast.parse("async def f():\n" + "\n".join("    " + ln for ln in code.splitlines())).body[0].body[0])
+
+    rest = [ast.unparse(st) for st in stmts[1:]]
+    if rest != [norm(x) for x in _DO_TICK]:
+        diff = [(i, a, b) for i, (a, b) in enumerate(zip(rest + [None] * len(_DO_TICK), [norm(x) for x in _DO_TICK] + [None] * len(rest))) if a != b]
+        raise Unrecognised(f"_do_tick: statement skeleton differs from the modelled one at {diff[:1]}")
+    return clears
+
+
+SECTIONS = ["topics", "pseudo", "tcp", "startup", "master_loop"]
+
+
 def extract() -> dict:
-    tn = ast.parse((SRC / "utils/topic_naming.py").read_text())
-    _validity_rejects_empty(tn)
-    ipre, isuf = _topic_parts(_func(tn, "input_topic"))
-    opre, osuf = _topic_parts(_func(tn, "output_topic"))
-    nested = ast.parse((SRC / "core/management/schedulers/nested.py").read_text())
-    pseudo = _pseudo_names(nested)
-    tcp = ast.parse((SRC / "adapters/tcp.py").read_text())
-    tcpio = ast.parse((SRC / "adapters/io/tcp_io.py").read_text())
-    return dict(in_prefix=ipre, in_suffix=isuf, out_prefix=opre, out_suffix=osuf, pseudo=pseudo,
-                unknown_reply=_unknown_reply(tcp), read_size=_read_size(tcpio), startup=_startup(SRC))
+    """every section is translated on its own; a section whose source shape is not recognised is left out of
+    the generated file (so exactly the theorems that rest on it stop compiling) and reported in errors"""
+    out, errors = {}, {}
+
+    def section(name, fn):
+        try:
+            out.update(fn())
+        except Unrecognised as e:
+            errors[name] = str(e)
+        except (OSError, SyntaxError) as e:
+            errors[name] = f"cannot read / parse the source: {e!r}"
+
+    def topics():
+        tn = ast.parse((SRC / "utils/topic_naming.py").read_text())
+        _validity_rejects_empty(tn)
+        ipre, isuf = _topic_parts(_func(tn, "input_topic"))
+        opre, osuf = _topic_parts(_func(tn, "output_topic"))
+        return dict(in_prefix=ipre, in_suffix=isuf, out_prefix=opre, out_suffix=osuf)
+
+    section("topics", topics)
+    section("pseudo", lambda: dict(pseudo=_pseudo_names(ast.parse((SRC / "core/management/schedulers/nested.py").read_text()))))
+    section("tcp", lambda: dict(unknown_reply=_unknown_reply(ast.parse((SRC / "adapters/tcp.py").read_text())),
+                                read_size=_read_size(ast.parse((SRC / "adapters/io/tcp_io.py").read_text()))))
+    section("startup", lambda: dict(startup=_startup(SRC)))
+    section("master_loop", lambda: dict(master_idle_clears=_master_loop(SRC)))
+    out["errors"] = errors
+    return out
 
 
 def render(c: dict) -> str:
-    ps = "; ".join(f"list_ascii_of_string {coq_string(p)}" for p in c["pseudo"])
-    return f"""(* GENERATED by harness/gen_consts.py from /repo/src/tickit -- do not edit *)
-From Coq Require Import String Ascii List ZArith.
-Import ListNotations.
-Definition in_prefix : list ascii := list_ascii_of_string {coq_string(c['in_prefix'])}.
-Definition in_suffix : list ascii := list_ascii_of_string {coq_string(c['in_suffix'])}.
-Definition out_prefix : list ascii := list_ascii_of_string {coq_string(c['out_prefix'])}.
-Definition out_suffix : list ascii := list_ascii_of_string {coq_string(c['out_suffix'])}.
-Definition pseudo_components : list (list ascii) := [{ps}].
-Definition unknown_reply : list ascii := list_ascii_of_string {coq_string(c['unknown_reply'])}.
-Definition tcp_read_size : Z := {c['read_size']}%Z.
-
+    parts = ["(* GENERATED by harness/gen_consts.py from the tickit sources -- do not edit *)",
+             "From Coq Require Import String Ascii List ZArith Bool.", "Import ListNotations."]
+    for name, msg in sorted(c["errors"].items()):
+        parts.append("(* section %s NOT TRANSLATED: %s *)" % (name, msg.replace("*)", "* )").replace("(*", "( *")))
+    if "in_prefix" in c:
+        for k in ("in_prefix", "in_suffix", "out_prefix", "out_suffix"):
+            parts.append(f"Definition {k} : list ascii := list_ascii_of_string {coq_string(c[k])}.")
+    if "pseudo" in c:
+        ps = "; ".join(f"list_ascii_of_string {coq_string(p)}" for p in c["pseudo"])
+        parts.append(f"Definition pseudo_components : list (list ascii) := [{ps}].")
+    if "unknown_reply" in c:
+        parts.append(f"Definition unknown_reply : list ascii := list_ascii_of_string {coq_string(c['unknown_reply'])}.")
+        parts.append(f"Definition tcp_read_size : Z := {c['read_size']}%Z.")
+    if "startup" in c:
+        parts.append("""
 (* start-up sequences, in source order: what run_forever / setup create (1 state_producer,
    2 state_consumer, 3 ticker, 4 new_wakeup, 5 time marks) and where they subscribe *)
-Inductive start_step := SCreate (r : positive) | SReplay.
-Definition component_start : list start_step := {coq_start(c['startup']['component'])}.
-Definition scheduler_start : list start_step := {coq_start(c['startup']['scheduler'])}.
-Definition master_start : list start_step := {coq_start(c['startup']['master'])}.
-"""
+Inductive start_step := SCreate (r : positive) | SReplay.""")
+        parts.append(f"Definition component_start : list start_step := {coq_start(c['startup']['component'])}.")
+        parts.append(f"Definition scheduler_start : list start_step := {coq_start(c['startup']['scheduler'])}.")
+        parts.append(f"Definition master_start : list start_step := {coq_start(c['startup']['master'])}.")
+    if "master_idle_clears" in c:
+        parts.append("""
+(* MasterScheduler._do_tick has the statement skeleton of Model/WakeFlag.v; does its idle branch
+   clear new_wakeup before waiting for it? *)""")
+        parts.append(f"Definition master_idle_clears : bool := {'true' if c['master_idle_clears'] else 'false'}.")
+    return "\n".join(parts) + "\n"
 
 
 def regenerate() -> dict:
